@@ -63,6 +63,14 @@ claimed.update({
    text="35-60 s of H.264+AAC frames (frame interval 40 ms..1 s, key-frame interval 1..12 s around the 5 s fragment, audio gaps) through the real TS muxer goroutine, segment generator and playlist in memory and disk modes; playlist invariants after every frame (three consecutive complete segments, media sequence, target duration, token, URIs resolve), segments snapshotted when they appear and compared with what 1-3 slow readers get through the real GetTS handler while rollover happens, two playlist fetchers with different tokens through GetM3u8; every segment is demultiplexed by an independent TS reader (PAT/PMT/CRC, continuity, PES, Annex-B, ADTS) and must carry every source frame exactly once, in order, starting with AUD+SPS+PPS+IDR after the first segment.",
    note="Trusted: the TS/ADTS/m3u8 oracles, sync.Pool made repeatable by GOMAXPROCS=1 and GC off during a run. One known finding (key-frame interval above twice the fragment length: segment cut on an audio frame) is listed in known_findings.json. C09 (pure TS byte format) is not claimed; its reader nevertheless runs on every segment here."),
 })
+claimed.update({
+ "C17": dict(level="exploration", ref="§5 C17",
+   text="Histories of 3-10 route saves and deletes (direct and through the real HTTP API with an administrator token) over nested/overlapping directory patterns, exact patterns shadowing directories, differently spelled patterns and URLs with and without trailing slash, run by an admin task concurrently with a requester task doing lookups; every lookup is compared with a reference resolver on the table before or after the edit in flight; the returned route is mutated to prove it is a copy; two lookups per run go through GetOrCreate to a fake camera that records the URL it is asked for and the path the stream is published under.",
+   note="Trusted: the reference resolver in scen/c17.go (written from the statement), the fake camera, the HTTP loop of the harness. The table x path dimension is sampled (input enumeration is not this technique); simulation adds the concurrent edit and the pull leg. Empty route URLs are outside the statement's quantifier."),
+ "C20": dict(level="fault_enumeration", ref="§5 C20",
+   text="A routed path requested through a real RTSP session (DESCRIBE/SETUP/PLAY) or by 2-3 racing requesters, with the pull client dialling a scripted fake camera: handshake step {connect, OPTIONS, DESCRIBE, SETUP video, SETUP audio, PLAY, streaming} x response kind {ok, refused, dial timeout, 404, 500, malformed, silence, reset, early EOF} x auth {none, Basic, Digest, never satisfied}; after a failure a second request meets a behaving camera. Oracle: success = right address and URL, credentials verified per RFC 2617 by the camera, stream under the requested path, camera packets relayed contiguously; failure = 404-style answer within the time budget, nothing registered, camera connection closed, counters back, later request dials afresh; concurrent requests end with one registered stream and no orphan connection after the requesters leave.",
+   note="Trusted: fake camera and its RFC 2617 verification, simnet dial seam (import-substituted into pull_client.go), sim.Conn. One (step, kind, auth) cell per run, seeded; all cells are reached in the quick tier (fault counters in the evidence)."),
+})
 pending = {
 }
 not_applicable = {
